@@ -152,7 +152,7 @@ theorem stepField_ok {tbl : Tbl} (ck : Nat) {s : DState} (tag value : Bytes) (hi
   unfold stepField
   -- the CheckSum / MsgType bookkeeping does not touch `top` / `stack`
   generalize hs1 : (if tag == tag10 then
-      { s with ckPassed := (match pyInt value with | some v => v == (ck : Int) | none => false) }
+      { s with ckPassed := (ckParse value == some ck) }
     else if tag == tag35 then { s with mtype := value } else s) = s1
   have hi1 : Inv tbl s1 := by
     subst hs1
